@@ -96,6 +96,29 @@ Proof.
   - exfalso. exact (decode_csv_total _ _ _ _ E).
 Qed.
 
+(* all three modes of invalid_line_mode ("fatal" ends in the distinguished error 5, never in a Panic) *)
+Theorem decode_csv_mode_total : forall trim_space delim ncols mode data p,
+  decode_csv_mode trim_space delim ncols mode data <> Panic p.
+Proof.
+  intros. unfold decode_csv_mode.
+  destruct (decode_csv trim_space delim data) as [row|e|q] eqn:E; cbn [bind]; [|discriminate|].
+  - destruct (_ && _); [|discriminate]. destruct (mode =? 2); [discriminate|]. destruct (mode =? 1); discriminate.
+  - exfalso. exact (decode_csv_total _ _ _ _ E).
+Qed.
+
+(* modes "default" / "continue" (and every unknown word) are the two-mode function the other theorems speak about;
+   "fatal" differs from "default" only in the error it ends with *)
+Lemma decode_csv_mode_checked : forall trim_space delim ncols mode data,
+  mode <> 2 ->
+  decode_csv_mode trim_space delim ncols mode data = decode_csv_checked trim_space delim ncols (mode =? 1) data.
+Proof.
+  intros trim_space delim ncols mode data Hm. unfold decode_csv_mode, decode_csv_checked.
+  destruct (decode_csv trim_space delim data) as [row|e|q]; cbn [bind]; try reflexivity.
+  destruct (Z.eqb_spec mode 2) as [->|_]; [contradiction|].
+  destruct (negb (ncols =? 0) && negb (len row =? ncols)); cbn [andb]; [|reflexivity].
+  destruct (mode =? 1); reflexivity.
+Qed.
+
 (* ---- faithfulness: unquoted fields ----------------------------------------------------------- *)
 Definition csv_field_ok (delim : byte) (f : bytes) : Prop :=
   index_byte f delim = -1 /\ index_byte f QUOTE = -1 /\ index_byte f NL = -1.
